@@ -27,6 +27,8 @@ Main entry points
     twin_graphs()                        files that are (near) copies of the origin model (Model::equals in the cycle test)
     child_order_graphs()                 2-3 children (unit references, used units, encapsulated children) in every order,
                                          the cycle-closing edge in every position
+    placeholder_graphs()                 import placeholders with imported children of their own (nesting 2 and 3)
+    origin_imports / retarget            the imports of a model; the model with one import pointed elsewhere
     random_layout / lay_out / spelled_keys   the same graph spread over sub-directories with URLs relative to the
                                          importing file ("sub/f", "../f", "./f", "x/../f")
 """
@@ -1164,6 +1166,46 @@ def child_order_graphs():
             files = {f0: M(mname(f0), [], [C("c", (f1, "c"))]),
                      f1: M(mname(f1), [], [C("c", None, [], kids)]), f2: leaf, f3: back3}
             yield ("order-kids-" + label, files)
+
+
+def placeholder_graphs():
+    """Resolvable graphs in which import placeholders of the origin model have encapsulated children of their own that
+    are imports again (placeholder nesting of depth 2 and 3), also below a local child, from the same and from different
+    files, with units used by the imported components.  Yields (label, files)."""
+    f0, f1, f2, f3 = fname(0), fname(1), fname(2), fname(3)
+    fp = M(mname(f1), [UL("up")], [C("p", None, ["up"])])
+    fq = M(mname(f2), [UL("uq")], [C("qc", None, ["uq"]), C("qd", None, [])])
+    fr = M(mname(f3), [], [C("rc", None, [STD])])
+    r = C("R", (f3, "rc"))
+    variants = {
+        "P-Q": [C("P", (f1, "p"), [], [C("Q", (f2, "qc"))])],
+        "P-Q-R": [C("P", (f1, "p"), [], [C("Q", (f2, "qc"), [], [r])])],
+        "P-QQ": [C("P", (f1, "p"), [], [C("Q", (f2, "qc")), C("Q2", (f2, "qd"))])],
+        "P-L-Q": [C("P", (f1, "p"), [], [C("L", None, [], [C("Q", (f2, "qc"), [], [r])])])],
+        "P-Q-samefile": [C("P", (f2, "qd"), [], [C("Q", (f2, "qc"))])],
+        "L-P-Q": [C("L", None, [], [C("P", (f1, "p"), [], [C("Q", (f2, "qc"))])])],
+        "P-Q+top": [C("P", (f1, "p"), [], [C("Q", (f2, "qc"))]), C("T", (f3, "rc"))],
+    }
+    for label, comps in variants.items():
+        yield ("placeholder-" + label, {f0: M(mname(f0), [], comps), f1: fp, f2: fq, f3: fr})
+
+
+def origin_imports(m):
+    """the imported entities of a model: [("u", name, url, ref) | ("c", name, url, ref)], components at any depth"""
+    out = [("u", u[1], u[2], u[3]) for u in m[2] if u[0] == "I"]
+    out += [("c", c[1], c[2][0], c[2][1]) for c in all_comps(m) if c[2] is not None]
+    return out
+
+
+def retarget(m, kind, name, url, ref):
+    """the model with the import of the units / component `name` pointed at (url, ref)"""
+    if kind == "u":
+        return M(m[1], [UI(u[1], url, ref) if (u[0] == "I" and u[1] == name) else u for u in m[2]], m[3], m[4])
+
+    def rc(c):
+        imp = (url, ref) if (c[2] is not None and c[1] == name) else c[2]
+        return C(c[1], imp, c[3], [rc(k) for k in c[4]])
+    return M(m[1], m[2], [rc(c) for c in m[3]], m[4])
 
 
 def _add_kid(parent, kid, rng):
